@@ -3,6 +3,7 @@ From Coq Require Import String ZArith List Bool.
 From FcpV Require Import Schema.Types Wire.Wire Py.PySerde Py.PySerdeProofs Reflect.Reflection Reflect.ReflectionProofs.
 From FcpV Require Import Verifier.Checks Py.BufferLib Py.DispatchLib Verifier.ChecksLib Layout.Packed Layout.EncoderLib Specs.SpecsLib Specs.SpecsProofs.
 From FcpV Require Import gen.ReflSchema.
+From FcpV Require Reflect.ReflLib Reflect.ReflSrcProofs gen.PyRefl.
 Import ListNotations.
 Open Scope Z_scope.
 
@@ -47,6 +48,29 @@ Definition c12_tree : rtree :=
                      ri_signals := [ {| rg_name := "a"; rg_fields := [("mux_count", "4")]%string; rg_meta := c12_meta |} ] |} ];
      r_services := [ {| rv_name := "Sv"; rv_id := 1; rv_meta := None;
                         rv_methods := [ {| rm_name := "m"; rm_id := 0; rm_input := "S"; rm_output := "S"; rm_meta := None |} ] |} ] |}.
+(* ---- the reflection() methods of src/fcp/specs/*.py (MetaData, StructField, Struct, Enumeration, Enum, SignalBlock, Impl, Method,
+   Service, FcpV2 and the Type classes) are translated from the source on every run (gen/PyRefl.v); a dict literal is read by the codec
+   by key in the order of the reflection schema.  The translated FcpV2.reflection() is the model's record for every tree, so the
+   theorems above are about the source ---- *)
+Theorem source_reflection_is_the_model : forall t, PyRefl.py_FcpV2_reflection t = reflection t.
+Proof. exact ReflSrcProofs.reflection_is_model. Qed.
+Print Assumptions source_reflection_is_the_model.
+
+(* the type chain: every Type class's translated method is the model's entry for that class, followed by the underlying type's chain *)
+Theorem source_type_chain_is_the_model :
+  (forall n k, PyRefl.py_NumericType_reflection n k = refl_type (TLeaf n k)) /\
+  PyRefl.py_StringType_reflection = refl_type (TLeaf "str" "str") /\
+  (forall n, PyRefl.py_EnumType_reflection n = refl_type (TLeaf n "Enum")) /\
+  (forall n, PyRefl.py_StructType_reflection n = refl_type (TLeaf n "Struct")) /\
+  (forall t n, PyRefl.py_ArrayType_reflection n (refl_type t) = refl_type (TArr t n)) /\
+  (forall t, PyRefl.py_DynamicArrayType_reflection (refl_type t) = refl_type (TDyn t)) /\
+  (forall t, PyRefl.py_OptionalType_reflection (refl_type t) = refl_type (TOpt t)).
+Proof.
+  exact (conj ReflSrcProofs.numeric_type (conj ReflSrcProofs.string_type (conj ReflSrcProofs.enum_type (conj ReflSrcProofs.struct_type
+         (conj ReflSrcProofs.array_type (conj ReflSrcProofs.dynamic_array_type ReflSrcProofs.optional_type)))))).
+Qed.
+Print Assumptions source_type_chain_is_the_model.
+
 Example c12_nonvacuous :
   match resolve ReflSchema.schema "Fcp", py_encode ReflSchema.schema "Fcp" (reflection c12_tree) with
   | Some T, Some bytes => has_type_gen py_okS T (reflection c12_tree) = true /\
